@@ -1021,9 +1021,55 @@ theorem C02_loss_never_acks (o : Outcome) (l : Option Loss) (h : o ≠ .ok) : o.
     what it launched and only a successful one gives roles their tasks; resourceOffers abandons a round in which a
     machine-bound descriptor has no offer before it launches anything. -/
 theorem C02_attempt_loop_is_code :
-    AcqCfg.code = { maxAttempts := Gen.C02.maxDeployAttempts, resetPerAttempt := Gen.C02.attemptResetsVerdict } ∧
+    AcqCfg.code.maxAttempts = Gen.C02.maxDeployAttempts ∧ AcqCfg.code.resetPerAttempt = Gen.C02.attemptResetsVerdict ∧
     Gen.C02.attemptFailsOnlyOnCritical = true ∧ Gen.C02.attemptLoopBreaksOnSuccess = true ∧
     Gen.C02.failedDeploymentDetaches = true ∧ Gen.C02.roundAbandonedWhenUndeployable = true := by decide
+
+/-- Tie to the source of the verdict's hand-over (go/ast, regenerated every run): the channel that acquireTasks puts into
+    the `outcomeCh` field of the request it hands to the scheduler is made inside the loop body — afresh for every attempt
+    — by `make(chan ResourceOffersOutcome, N)` with this literal N (0: no capacity argument = unbuffered, or shape not
+    recognised), and acquireTasks receives from it once per attempt; and there is exactly ONE send on an `outcomeCh` in
+    core/task: in resourceOffers, on the channel of the one request that call took from `tasksToDeploy`, outside every
+    loop, under no condition but "a request was taken", with no `return` between taking the request and the send. So the
+    channel is empty when the send is tried: `AcqCfg.heard`. With the repair reverted the capacity reads 0 and this
+    theorem is false. -/
+theorem C02_verdict_channel_is_code :
+    AcqCfg.code.outcomeCap = Gen.C02.outcomeChanCapacity ∧ Gen.C02.oneVerdictPerRequest = true := by decide
+
+/-- The hand-over, for every configuration: the verdict is heard iff acquireTasks is at its receive or the channel has
+    room for it. -/
+theorem C02_handover_heard_iff (acfg : AcqCfg) (listening : Bool) :
+    acfg.heard listening = true ↔ listening = true ∨ 0 < acfg.outcomeCap := by
+  simp [AcqCfg.heard, trySend]
+
+/-- A channel with room never drops the verdict — whichever attempt's round is over before acquireTasks listens, and in
+    every workflow: acquireTasks never hangs and does exactly what it does when every verdict is heard. In particular the
+    code as it is (`AcqCfg.code`, capacity 1). -/
+theorem C02_verdict_always_heard (acfg : AcqCfg) (hc : 0 < acfg.outcomeCap) (w : OWorkflow) :
+    w.dropped acfg = none ∧ w.hung acfg = false ∧ w.acquired acfg = acquire acfg w.descs w.rounds := by
+  have hd : w.dropped acfg = none := by
+    unfold OWorkflow.dropped
+    cases w.notListening with
+    | none => rfl
+    | some k => simp [(C02_handover_heard_iff acfg false).2 (Or.inr hc)]
+  exact ⟨hd, by simp [OWorkflow.hung, hd], by simp [OWorkflow.acquired, hd]⟩
+
+theorem dropped_code (w : OWorkflow) : w.dropped AcqCfg.code = none :=
+  (C02_verdict_always_heard AcqCfg.code (by decide) w).1
+
+theorem hung_code (w : OWorkflow) : w.hung AcqCfg.code = false :=
+  (C02_verdict_always_heard AcqCfg.code (by decide) w).2.1
+
+theorem acquired_code (w : OWorkflow) : w.acquired AcqCfg.code = acquire AcqCfg.code w.descs w.rounds :=
+  (C02_verdict_always_heard AcqCfg.code (by decide) w).2.2
+
+/-- With the unbuffered channel of the code as it was, the attempt that finds no receiver is the one whose verdict is
+    dropped. -/
+theorem dropped_legacy (w : OWorkflow) : w.dropped AcqCfg.legacy = w.notListening := by
+  unfold OWorkflow.dropped
+  cases w.notListening with
+  | none => rfl
+  | some k => simp [AcqCfg.heard, trySend, AcqCfg.legacy]
 
 /-- acquireTasks' verdict on an attempt, for EVERY descriptor list and EVERY offers round: a failure iff a CRITICAL
     descriptor does not find the offer of its machine. -/
@@ -1051,7 +1097,7 @@ theorem C02_attempts_bounded (cfg : AcqCfg) (ds : List Desc) (rs : List Round) :
     of the code as it is goes on in the same way. -/
 theorem C02_attempt_verdicts_independent (ds : List Desc) (n : Nat) (flag : Bool) (rs : List Round) :
     acquireLoop AcqCfg.code ds (n + 1) flag rs = acquireLoop AcqCfg.code ds (n + 1) true rs :=
-  acquireLoop_code_flag attemptLimit ds n flag rs
+  acquireLoop_code_flag attemptLimit 1 ds n flag rs
 
 theorem acquire_code_facts (ds : List Desc) (rs : List Round) :
     let a := acquire AcqCfg.code ds rs
@@ -1067,7 +1113,7 @@ theorem acquire_code_facts (ds : List Desc) (rs : List Round) :
     simp only [true_iff]
     exact ⟨0, by decide, by simp [critMissing]⟩
   · simp only [acquire_code_nonempty ds rs hne]
-    exact acquireLoop_code_facts attemptLimit ds 2 true rs
+    exact acquireLoop_code_facts attemptLimit 1 ds 2 true rs
 
 /-- acquireTasks succeeds iff SOME attempt within the limit is not a failure — for every descriptor list and every
     pattern of missing offers. -/
@@ -1094,7 +1140,7 @@ theorem C02_first_good_attempt_decides (ds : List Desc) (rs : List Round) (hne :
       { attempts := List.replicate i [] ++ [(roundOutcome ds (rs.getD i [])).deployed], ok := true,
         kept := (roundOutcome ds (rs.getD i [])).deployed, marked := [] } := by
   rw [acquire_code_nonempty ds rs hne]
-  exact acquireLoop_code_first attemptLimit ds i 3 true rs hi hfail hgood
+  exact acquireLoop_code_first attemptLimit 1 ds i 3 true rs hi hfail hgood
 
 /-- Closed form, genuine failure: every attempt up to the limit leaves a critical descriptor without its offer. Nothing
     was launched, no role holds a task, and exactly the critical descriptors that missed their offer in the last round
@@ -1105,7 +1151,7 @@ theorem C02_attempts_exhausted (ds : List Desc) (rs : List Round) (hne : ds ≠ 
       { attempts := List.replicate attemptLimit [], ok := false, kept := [],
         marked := (roundOutcome ds (rs.getD 2 [])).undeployable.filter (critAt ds) } := by
   rw [acquire_code_nonempty ds rs hne]
-  exact acquireLoop_code_exhausted attemptLimit ds 2 true rs h
+  exact acquireLoop_code_exhausted attemptLimit 1 ds 2 true rs h
 
 /-- The two closed forms are all there is: the first attempt within the limit that is not a failure, or none. -/
 theorem acquire_code_cases (ds : List Desc) (rs : List Round) (hne : ds ≠ []) :
@@ -1171,9 +1217,9 @@ theorem complete_not_missing (ds : List Desc) (r : Round) (h : complete ds r = t
   · rfl
   · rw [critMissing_incomplete ds r hm] at h; cases h
 
-/-- Full strength, per configuration of the loop: a deployment whose offers come late — some attempt within the limit
-    finds every machine's offer after attempts that each left a critical task without one — is reported DEPLOYED, every
-    task coming up. In EVERY environment, those that drop a verdict on its way to acquireTasks included. -/
+/-- Full strength, per configuration of acquireTasks: a deployment whose offers come late — some attempt within the
+    limit finds every machine's offer after attempts that each left a critical task without one — is reported DEPLOYED,
+    every task coming up. In EVERY environment: whichever round is over before acquireTasks is at its receive. -/
 def C02_deploy_retry_full (acfg : AcqCfg) : Prop :=
   ∀ (w : OWorkflow) (i : Nat), i < attemptLimit →
     (∀ j, j < i → critMissing w.descs (w.rounds.getD j []) = true) →
@@ -1181,20 +1227,21 @@ def C02_deploy_retry_full (acfg : AcqCfg) : Prop :=
     (∀ t ∈ w.tasks, t.launch = .ok) → w.tasks ≠ [] → w.notifyLost = false →
     deployBody (w.eff (w.acquired acfg)).tasks w.calls w.notifyLost = .ok
 
-/-- The same with the excluding hypothesis: every verdict reaches acquireTasks. -/
+/-- The same with the excluding hypothesis: acquireTasks is at its receive whenever a verdict is handed over. -/
 def C02_deploy_retry_heard (acfg : AcqCfg) : Prop :=
-  ∀ (w : OWorkflow) (i : Nat), w.verdictLost = none → i < attemptLimit →
+  ∀ (w : OWorkflow) (i : Nat), w.notListening = none → i < attemptLimit →
     (∀ j, j < i → critMissing w.descs (w.rounds.getD j []) = true) →
     complete w.descs (w.rounds.getD i []) = true →
     (∀ t ∈ w.tasks, t.launch = .ok) → w.tasks ≠ [] → w.notifyLost = false →
     deployBody (w.eff (w.acquired acfg)).tasks w.calls w.notifyLost = .ok
 
-/-- The code as it is: it holds whenever the verdicts are heard. Whether the complete round is the first, the second or
-    the third makes no difference. -/
-theorem C02_deploy_retry_partial : C02_deploy_retry_heard AcqCfg.code := by
-  intro w i hv hi hfail hcomplete hscripts hne hl
-  have hacq : w.acquired AcqCfg.code = acquire AcqCfg.code w.descs w.rounds := by simp [OWorkflow.acquired, hv]
-  rw [hacq]
+/-- What both rest on: when acquireTasks does what it does with every verdict heard, the deployment is reported.
+    Whether the complete round is the first, the second or the third makes no difference. -/
+theorem deploy_retry_of_acquire (w : OWorkflow) (i : Nat) (hi : i < attemptLimit)
+    (hfail : ∀ j, j < i → critMissing w.descs (w.rounds.getD j []) = true)
+    (hcomplete : complete w.descs (w.rounds.getD i []) = true)
+    (hscripts : ∀ t ∈ w.tasks, t.launch = .ok) (hne : w.tasks ≠ []) (hl : w.notifyLost = false) :
+    deployBody (w.eff (acquire AcqCfg.code w.descs w.rounds)).tasks w.calls w.notifyLost = .ok := by
   have hdne : w.descs ≠ [] := by
     intro h; apply hne; simpa [OWorkflow.descs] using h
   rw [C02_first_good_attempt_decides w.descs w.rounds hdne i hi hfail (complete_not_missing _ _ hcomplete)]
@@ -1215,19 +1262,35 @@ theorem C02_deploy_retry_partial : C02_deploy_retry_heard AcqCfg.code := by
     simp only [effLaunch, hk, ↓reduceIte]
     exact hscripts p.2 hmem
 
-/-- finding `deploy_verdict_lost`: in full it is false of the code as it is. resourceOffers hands the verdict of a round
-    to acquireTasks with a non-blocking send on an unbuffered channel; when the round is over before acquireTasks
-    listens, the verdict is dropped: the tasks were launched and come up, acquireTasks waits for ever (holding the
-    deployment mutex), no role gets its task, DEPLOY times out. -/
-theorem C02_finding_deploy_verdict_lost : ¬ C02_deploy_retry_full AcqCfg.code := by
+/-- The code as it is, at FULL strength (since `fix: acquireTasks cannot miss the verdict of its offers round`): a
+    deployment whose complete round is the first, second or third after failed ones is reported DEPLOYED, whichever
+    round is over before acquireTasks listens — the channel keeps the verdict. -/
+theorem C02_deploy_retry_code : C02_deploy_retry_full AcqCfg.code := by
+  intro w i hi hfail hcomplete hscripts hne hl
+  rw [acquired_code]
+  exact deploy_retry_of_acquire w i hi hfail hcomplete hscripts hne hl
+
+/-- The code as it was (unbuffered channel): it holds whenever acquireTasks is listening when a verdict is handed over. -/
+theorem C02_deploy_retry_partial : C02_deploy_retry_heard AcqCfg.legacy := by
+  intro w i hv hi hfail hcomplete hscripts hne hl
+  have hacq : w.acquired AcqCfg.legacy = acquire AcqCfg.code w.descs w.rounds := by
+    simp [OWorkflow.acquired, dropped_legacy, hv, acquire_legacy]
+  rw [hacq]
+  exact deploy_retry_of_acquire w i hi hfail hcomplete hscripts hne hl
+
+/-- the former finding `deploy_verdict_lost` (repaired; a true statement about the code as it was): in full it is false
+    with the unbuffered channel. resourceOffers hands the verdict of a round to acquireTasks with a non-blocking send;
+    when the round is over before acquireTasks listens, the verdict is dropped: the tasks were launched and come up,
+    acquireTasks waits for ever (holding the deployment mutex), no role gets its task, DEPLOY times out. -/
+theorem C02_finding_deploy_verdict_lost : ¬ C02_deploy_retry_full AcqCfg.legacy := by
   intro h
-  have := h { calls := 0, tasks := [⟨true, .ok, 1⟩, ⟨false, .ok, 2⟩], rounds := [], verdictLost := some 0 } 0
+  have := h { calls := 0, tasks := [⟨true, .ok, 1⟩, ⟨false, .ok, 2⟩], rounds := [], notListening := some 0 } 0
     (by decide) (by intro j hj; omega) (by decide) (by decide) (by decide) rfl
   revert this; decide
 
-/-- Without the reset at the head of the loop body it is false even when every verdict is heard: a critical task whose
-    machine is missing from the first round only is launched by the second attempt and comes up, yet the deployment is
-    not reported (the flag is sticky, the launched task is detached, DEPLOY can only time out). -/
+/-- Without the reset at the head of the loop body it is false even when every verdict is heard (and the channel has
+    room): a critical task whose machine is missing from the first round only is launched by the second attempt and comes
+    up, yet the deployment is not reported (the flag is sticky, the launched task is detached, DEPLOY can only time out). -/
 theorem C02_retry_needs_reset : ¬ C02_deploy_retry_heard AcqCfg.sticky := by
   intro h
   have := h { calls := 0, tasks := [⟨true, .ok, 1⟩, ⟨false, .ok, 2⟩], rounds := [[1]] } 1 rfl (by decide)
@@ -1285,28 +1348,27 @@ theorem run_deploy_fails (cfg : Cfg) (sc : Scenario)
 theorem judge_att (sc : Scenario) (o : Obs) (os : List Obs) (x : Option (List (List Nat))) (y : Bool) :
     judge sc ({ o with att := x, verdictLost := y } :: os) = judge sc (o :: os) := rfl
 
-/-- With the last verdict heard, `judgeO` is the clause about the attempts plus `judge` on the workflow as offered. -/
-theorem judgeO_heard (sc : OScenario) (o : Obs) (os : List Obs)
-    (att : List (List Nat)) (ho : o.att = some att) (hv : lostLast sc.wf att.length = false) :
+/-- `judgeO` is the clause about the attempts plus `judge` on the workflow as offered. -/
+theorem judgeO_cons (sc : OScenario) (o : Obs) (os : List Obs) (att : List (List Nat)) (ho : o.att = some att) :
     judgeO sc (o :: os) =
       if attemptsOk sc.wf.descs sc.wf.rounds att.length then
         judge { wf := sc.wf.asOffered att.length, configure := sc.configure, steps := sc.steps } (o :: os)
       else some "-" := by
-  simp only [judgeO, ho, hv]
-  generalize (if attemptsOk sc.wf.descs sc.wf.rounds att.length = true then
-      judge { wf := sc.wf.asOffered att.length, configure := sc.configure, steps := sc.steps } (o :: os)
-    else some "-") = v
-  cases v <;> simp
+  simp only [judgeO, ho]
 
-/-- With the last verdict lost, every violation is attributed to that. -/
-theorem judgeO_lost (sc : OScenario) (o : Obs) (os : List Obs)
+/-- The analysis of the code as it was: with the last verdict heard it is `judgeO`. -/
+theorem judgeOAll_heard (sc : OScenario) (o : Obs) (os : List Obs)
+    (att : List (List Nat)) (ho : o.att = some att) (hv : lostLast sc.wf att.length = false) :
+    judgeOAll sc (o :: os) = judgeO sc (o :: os) := by
+  unfold judgeOAll
+  cases judgeO sc (o :: os) <;> simp [ho, hv]
+
+/-- …with the last verdict lost, every violation is attributed to that. -/
+theorem judgeOAll_lost (sc : OScenario) (o : Obs) (os : List Obs)
     (att : List (List Nat)) (ho : o.att = some att) (hv : lostLast sc.wf att.length = true) :
-    judgeO sc (o :: os) = none ∨ judgeO sc (o :: os) = some "deploy_verdict_lost" := by
-  simp only [judgeO, ho, hv]
-  generalize (if attemptsOk sc.wf.descs sc.wf.rounds att.length = true then
-      judge { wf := sc.wf.asOffered att.length, configure := sc.configure, steps := sc.steps } (o :: os)
-    else some "-") = v
-  cases v <;> simp
+    judgeOAll sc (o :: os) = none ∨ judgeOAll sc (o :: os) = some "deploy_verdict_lost" := by
+  unfold judgeOAll
+  cases judgeO sc (o :: os) <;> simp [ho, hv]
 
 theorem runO_heard (acfg : AcqCfg) (cfg : Cfg) (sc : OScenario) (hh : sc.wf.hung acfg = false) :
     runO acfg cfg sc =
@@ -1315,7 +1377,7 @@ theorem runO_heard (acfg : AcqCfg) (cfg : Cfg) (sc : OScenario) (hh : sc.wf.hung
       | o :: os => { o with att := some (acquire acfg sc.wf.descs sc.wf.rounds).attempts, verdictLost := false } :: os := by
   have ha : sc.wf.acquired acfg = acquire acfg sc.wf.descs sc.wf.rounds := by
     unfold OWorkflow.acquired OWorkflow.hung at *
-    cases hv : sc.wf.verdictLost with
+    cases hv : sc.wf.dropped acfg with
     | none => rfl
     | some k =>
       simp only [hv, decide_eq_false_iff_not] at hh
@@ -1324,11 +1386,13 @@ theorem runO_heard (acfg : AcqCfg) (cfg : Cfg) (sc : OScenario) (hh : sc.wf.hung
   simp only [ha, hh]
   cases run cfg { wf := sc.wf.eff (acquire acfg sc.wf.descs sc.wf.rounds), configure := sc.configure, steps := sc.steps } <;> rfl
 
-theorem not_hung_not_lost (acfg : AcqCfg) (w : OWorkflow) (hh : w.hung acfg = false) :
-    lostLast w (acquire acfg w.descs w.rounds).attempts.length = false := by
+/-- The code as it was, not hanging: the attempt that found no receiver (if any) is not the last one made. -/
+theorem not_hung_not_lost (w : OWorkflow) (hh : w.hung AcqCfg.legacy = false) :
+    lostLast w (acquire AcqCfg.code w.descs w.rounds).attempts.length = false := by
   unfold OWorkflow.hung at hh
+  rw [dropped_legacy, acquire_legacy] at hh
   unfold lostLast
-  cases hv : w.verdictLost with
+  cases hv : w.notListening with
   | none => rfl
   | some k =>
     simp only [hv, decide_eq_false_iff_not] at hh
@@ -1358,7 +1422,7 @@ theorem judge_deploy_failed (sc : Scenario) (ra : Bool) (att : Option (List (Lis
 /-- `judgeO` of the model's run is `judge` of a plain run (the deployment was decided on a complete round), "no
     violation" (a critical task's machine was missing to the end), or a verdict inside the open DEPLOY corners with the
     workflow as offered having a non-critical task that could not start. -/
-theorem judgeO_runO (sc : OScenario) (hh : sc.wf.hung AcqCfg.code = false) :
+theorem judgeO_runO (sc : OScenario) :
     let n := (acquire AcqCfg.code sc.wf.descs sc.wf.rounds).attempts.length
     let off : Scenario := { wf := sc.wf.asOffered n, configure := sc.configure, steps := sc.steps }
     judgeO sc (runO AcqCfg.code Cfg.code sc) = judge off (run Cfg.code off) ∨
@@ -1368,6 +1432,7 @@ theorem judgeO_runO (sc : OScenario) (hh : sc.wf.hung AcqCfg.code = false) :
        judgeO sc (runO AcqCfg.code Cfg.code sc) = some "deploy_misses_active" ∨
        judgeO sc (runO AcqCfg.code Cfg.code sc) = some "deploy_noncritical_blocks")) := by
   intro n off
+  have hh : sc.wf.hung AcqCfg.code = false := hung_code sc.wf
   have hatt : attemptsOk sc.wf.descs sc.wf.rounds n = true := C02_attempts_ok sc.wf.descs sc.wf.rounds
   by_cases hne : sc.wf.tasks = []
   · -- no task role: acquireTasks is not called, nothing is offered to anybody
@@ -1384,7 +1449,7 @@ theorem judgeO_runO (sc : OScenario) (hh : sc.wf.hung AcqCfg.code = false) :
     cases hr : run Cfg.code off with
     | nil => simp [judgeO, judge, judgeAll]
     | cons o os =>
-      rw [judgeO_heard sc _ _ _ rfl (not_hung_not_lost _ _ hh)]
+      rw [judgeO_cons sc _ _ _ rfl]
       rw [show (acquire AcqCfg.code sc.wf.descs sc.wf.rounds).attempts.length = n from rfl, hatt]
       simp only [↓reduceIte]
       exact judge_att off o os _ _
@@ -1408,7 +1473,7 @@ theorem judgeO_runO (sc : OScenario) (hh : sc.wf.hung AcqCfg.code = false) :
                          att := some (acquire AcqCfg.code sc.wf.descs sc.wf.rounds).attempts, verdictLost := false }] := by
           rw [runO_heard _ _ sc hh]
           simp only [hrun]
-          rw [judgeO_heard sc _ _ _ rfl (not_hung_not_lost _ _ hh)]
+          rw [judgeO_cons sc _ _ _ rfl]
           rw [show (acquire AcqCfg.code sc.wf.descs sc.wf.rounds).attempts.length = n from rfl, hatt]
           rfl
         rcases hj with hj | hj | hj | hj
@@ -1430,7 +1495,7 @@ theorem judgeO_runO (sc : OScenario) (hh : sc.wf.hung AcqCfg.code = false) :
         cases hr : run Cfg.code off with
         | nil => simp [judgeO, judge, judgeAll]
         | cons o os =>
-          rw [judgeO_heard sc _ _ _ rfl (not_hung_not_lost _ _ hh)]
+          rw [judgeO_cons sc _ _ _ rfl]
           rw [show (acquire AcqCfg.code sc.wf.descs sc.wf.rounds).attempts.length = n from rfl, hatt]
           simp only [↓reduceIte]
           exact judge_att off o os _ _
@@ -1446,90 +1511,119 @@ theorem judgeO_runO (sc : OScenario) (hh : sc.wf.hung AcqCfg.code = false) :
       have hj := (judge_deploy_failed off ra (some (acquire AcqCfg.code sc.wf.descs sc.wf.rounds).attempts) false).1 hcm
       rw [runO_heard _ _ sc hh]
       simp only [hrun]
-      rw [judgeO_heard sc _ _ _ rfl (not_hung_not_lost _ _ hh)]
+      rw [judgeO_cons sc _ _ _ rfl]
       rw [show (acquire AcqCfg.code sc.wf.descs sc.wf.rounds).attempts.length = n from rfl, hatt]
       exact hj
 
-theorem hung_of_heard (acfg : AcqCfg) (w : OWorkflow) (hv : w.verdictLost = none) : w.hung acfg = false := by
-  simp [OWorkflow.hung, hv]
-
-/-- The code as it is satisfies Spec.C02 on EVERY scenario with offers rounds in which every verdict is heard — every
-    pattern of missing offers, every placement and critical mix (machines that no agent has included), every request
-    sequence after the deployment — outside the three open DEPLOY corners, evaluated on the workflow as offered in the
-    last round that took place (a NON-critical task whose machine is missing from it is "a non-critical task that did not
-    start"). -/
-theorem C02_attempts_spec_code (sc : OScenario) (hv : sc.wf.verdictLost = none) :
+/-- The code as it is satisfies Spec.C02 on EVERY scenario with offers rounds — every pattern of missing offers, every
+    placement and critical mix (machines that no agent has included), every request sequence after the deployment,
+    whichever round is over before acquireTasks is at its receive — outside the three open DEPLOY corners, evaluated on
+    the workflow as offered in the last round that took place (a NON-critical task whose machine is missing from it is
+    "a non-critical task that did not start"). -/
+theorem C02_attempts_spec_code (sc : OScenario) :
     let wf := sc.wf.asOffered (acquire AcqCfg.code sc.wf.descs sc.wf.rounds).attempts.length
     emptyWorkflow wf = false → noncritLaunchFail wf.tasks = false → earlyRunning wf.tasks = false →
     wf.notifyLost = false → judgeO sc (runO AcqCfg.code Cfg.code sc) = none := by
   intro wf h0 h1 h2 h3
-  rcases judgeO_runO sc (hung_of_heard _ _ hv) with h | h | ⟨hn, _⟩
+  rcases judgeO_runO sc with h | h | ⟨hn, _⟩
   · rw [h]; exact C02_spec_code _ h0 h1 h2 h3
   · exact h
   · rw [show noncritLaunchFail wf.tasks = true from hn] at h1; cases h1
 
-/-- …and on ALL of them — lost verdicts included — nothing else is left: a rejected run of the model lies in one of the
-    three open DEPLOY corners or is due to a lost verdict. -/
+/-- …and on ALL of them nothing else is left: a rejected run of the model of the code as it is lies in one of the three
+    open DEPLOY corners. (Before the repair of the hand-over a fourth class was left: `C02_attempts_only_open_corners_legacy`.) -/
 theorem C02_attempts_only_open_corners_code (sc : OScenario) (h : String)
     (hj : judgeO sc (runO AcqCfg.code Cfg.code sc) = some h) :
+    h = "deploy_empty_workflow" ∨ h = "deploy_misses_active" ∨ h = "deploy_noncritical_blocks" := by
+  rcases judgeO_runO sc with h' | h' | ⟨_, h' | h' | h'⟩
+  · rw [h'] at hj
+    exact C02_only_deploy_corners_code _ h hj
+  · rw [h'] at hj; cases hj
+  · rw [h'] at hj; left; exact (Option.some.inj hj).symm
+  · rw [h'] at hj; right; left; exact (Option.some.inj hj).symm
+  · rw [h'] at hj; right; right; exact (Option.some.inj hj).symm
+
+theorem C02_attempts_corners_exhaustive (sc : OScenario) : judgeO sc (runO AcqCfg.code Cfg.code sc) ≠ some "-" := by
+  intro hj
+  rcases C02_attempts_only_open_corners_code sc "-" hj with h | h | h <;> revert h <;> decide
+
+/-- Which round is over before acquireTasks listens is irrelevant for the code as it is: the run is the run of the
+    scenario in which acquireTasks is always listening. -/
+theorem C02_listening_irrelevant_code (cfg : Cfg) (sc : OScenario) :
+    runO AcqCfg.code cfg sc = runO AcqCfg.code cfg { sc with wf := { sc.wf with notListening := none } } := by
+  simp only [runO, acquired_code, hung_code]
+  rfl
+
+/-- As long as acquireTasks does not hang, the code as it was runs as the code as it is. -/
+theorem runO_legacy_eq (cfg : Cfg) (sc : OScenario) (hh : sc.wf.hung AcqCfg.legacy = false) :
+    runO AcqCfg.legacy cfg sc = runO AcqCfg.code cfg sc := by
+  rw [runO_heard _ _ sc hh, runO_heard _ _ sc (hung_code _)]
+  simp only [acquire_legacy]
+
+/-- The code as it was (unbuffered channel), analysed with the former corner named: a rejected run of its model lies in
+    one of the three open DEPLOY corners or is due to a lost verdict. -/
+theorem C02_attempts_only_open_corners_legacy (sc : OScenario) (h : String)
+    (hj : judgeOAll sc (runO AcqCfg.legacy Cfg.code sc) = some h) :
     h = "deploy_empty_workflow" ∨ h = "deploy_misses_active" ∨ h = "deploy_noncritical_blocks" ∨
     h = "deploy_verdict_lost" := by
-  cases hh : sc.wf.hung AcqCfg.code with
+  cases hh : sc.wf.hung AcqCfg.legacy with
   | false =>
-    rcases judgeO_runO sc hh with h' | h' | ⟨_, h' | h' | h'⟩
-    · rw [h'] at hj
-      rcases C02_only_deploy_corners_code _ h hj with h | h | h
-      · exact Or.inl h
-      · exact Or.inr (Or.inl h)
-      · exact Or.inr (Or.inr (Or.inl h))
-    · rw [h'] at hj; cases hj
-    · rw [h'] at hj; left; exact (Option.some.inj hj).symm
-    · rw [h'] at hj; right; left; exact (Option.some.inj hj).symm
-    · rw [h'] at hj; right; right; left; exact (Option.some.inj hj).symm
+    rw [runO_legacy_eq _ sc hh] at hj
+    have hc : judgeO sc (runO AcqCfg.code Cfg.code sc) = some h := by
+      rw [runO_heard _ _ sc (hung_code _)] at hj ⊢
+      revert hj
+      cases run Cfg.code { wf := sc.wf.eff (acquire AcqCfg.code sc.wf.descs sc.wf.rounds), configure := sc.configure,
+                           steps := sc.steps } with
+      | nil => intro hj; simp [judgeOAll, judgeO] at hj
+      | cons o os =>
+        intro hj
+        rw [judgeOAll_heard sc _ os _ rfl (not_hung_not_lost _ hh)] at hj
+        exact hj
+    rcases C02_attempts_only_open_corners_code sc h hc with h | h | h
+    · exact Or.inl h
+    · exact Or.inr (Or.inl h)
+    · exact Or.inr (Or.inr (Or.inl h))
   | true =>
     right; right; right
     -- the verdict of the last attempt made is lost: whatever is rejected is attributed to that
     unfold OWorkflow.hung at hh
-    cases hv : sc.wf.verdictLost with
+    rw [dropped_legacy] at hh
+    cases hv : sc.wf.notListening with
     | none => simp [hv] at hh
     | some k =>
       simp only [hv, decide_eq_true_eq] at hh
-      have ha : sc.wf.acquired AcqCfg.code =
-          { attempts := (acquire AcqCfg.code sc.wf.descs sc.wf.rounds).attempts.take (k + 1), ok := false, kept := [],
+      have ha : sc.wf.acquired AcqCfg.legacy =
+          { attempts := (acquire AcqCfg.legacy sc.wf.descs sc.wf.rounds).attempts.take (k + 1), ok := false, kept := [],
             marked := [] } := by
-        simp [OWorkflow.acquired, hv, acquireLost, hh]
-      have hlen : ((acquire AcqCfg.code sc.wf.descs sc.wf.rounds).attempts.take (k + 1)).length = k + 1 := by
+        simp [OWorkflow.acquired, dropped_legacy, hv, acquireLost, hh]
+      have hlen : ((acquire AcqCfg.legacy sc.wf.descs sc.wf.rounds).attempts.take (k + 1)).length = k + 1 := by
         rw [List.length_take]; omega
-      have hl : lostLast sc.wf ((acquire AcqCfg.code sc.wf.descs sc.wf.rounds).attempts.take (k + 1)).length = true := by
+      have hl : lostLast sc.wf ((acquire AcqCfg.legacy sc.wf.descs sc.wf.rounds).attempts.take (k + 1)).length = true := by
         simp [lostLast, hv, hlen]
       unfold runO at hj
       rw [ha] at hj
       simp only at hj
       revert hj
       cases run Cfg.code { wf := sc.wf.eff _, configure := sc.configure, steps := sc.steps } with
-      | nil => intro hj; simp [judgeO] at hj
+      | nil => intro hj; simp [judgeOAll, judgeO] at hj
       | cons o os =>
         intro hj
-        rcases judgeO_lost sc
-          { o with att := some ((acquire AcqCfg.code sc.wf.descs sc.wf.rounds).attempts.take (k + 1)),
-                   verdictLost := sc.wf.hung AcqCfg.code } os _ rfl hl with h' | h'
+        rcases judgeOAll_lost sc
+          { o with att := some ((acquire AcqCfg.legacy sc.wf.descs sc.wf.rounds).attempts.take (k + 1)),
+                   verdictLost := sc.wf.hung AcqCfg.legacy } os _ rfl hl with h' | h'
         · rw [h'] at hj; cases hj
         · rw [h'] at hj; exact (Option.some.inj hj).symm
 
-theorem C02_attempts_corners_exhaustive (sc : OScenario) : judgeO sc (runO AcqCfg.code Cfg.code sc) ≠ some "-" := by
-  intro hj
-  rcases C02_attempts_only_open_corners_code sc "-" hj with h | h | h | h <;> revert h <;> decide
-
-/-- A lost verdict is never mistaken for a deployment: acquireTasks is still waiting, no role holds a task, DEPLOY
-    fails (the destination is not reported) — whatever was launched in that attempt. -/
-theorem C02_verdict_lost_never_reported (w : OWorkflow) (hne : w.tasks ≠ []) (hh : w.hung AcqCfg.code = true) :
-    deployBody (w.eff (w.acquired AcqCfg.code)).tasks w.calls w.notifyLost ≠ .ok := by
+/-- The code as it was: a lost verdict is never mistaken for a deployment — acquireTasks is still waiting, no role holds
+    a task, DEPLOY fails (the destination is not reported), whatever was launched in that attempt. -/
+theorem C02_verdict_lost_never_reported (w : OWorkflow) (hne : w.tasks ≠ []) (hh : w.hung AcqCfg.legacy = true) :
+    deployBody (w.eff (w.acquired AcqCfg.legacy)).tasks w.calls w.notifyLost ≠ .ok := by
   unfold OWorkflow.hung at hh
-  cases hv : w.verdictLost with
+  cases hv : w.dropped AcqCfg.legacy with
   | none => simp [hv] at hh
   | some k =>
     simp only [hv, decide_eq_true_eq] at hh
-    have hk : (w.acquired AcqCfg.code).kept = [] := by
+    have hk : (w.acquired AcqCfg.legacy).kept = [] := by
       simp [OWorkflow.acquired, hv, acquireLost, hh]
     exact eff_none_fails w _ hk hne
 
@@ -1604,15 +1698,27 @@ example :
     acquire AcqCfg.code [⟨true, some 1⟩, ⟨false, some 2⟩] [[1], [1], [1]] =
       { attempts := [[], [], []], ok := false, kept := [], marked := [0] } := by decide
 
-/-- A lost verdict, on the model of the code as it is: the critical task's machine is missing from the first round, the
-    verdict of that (abandoned) round never reaches acquireTasks — no second attempt, NewEnvironment fails. -/
+/-- The round is over before acquireTasks listens, on the model of the code as it is: the critical task's machine is
+    missing from the first round, that (abandoned) round's verdict waits in the channel — second attempt, both tasks
+    launched, NewEnvironment answers CONFIGURED. On the model of the code as it was the same environment loses the
+    verdict: no second attempt, NewEnvironment fails, and the former analysis names the corner. -/
 example :
     runO AcqCfg.code Cfg.code
-      { wf := { calls := 0, tasks := [⟨true, .ok, 1⟩, ⟨false, .ok, 2⟩], rounds := [[1]], verdictLost := some 0 },
+      { wf := { calls := 0, tasks := [⟨true, .ok, 1⟩, ⟨false, .ok, 2⟩], rounds := [[1]], notListening := some 0 },
+        configure := [.ok, .ok], steps := [] } =
+      [{ ev := none, rpc := .ok, state := some .CONFIGURED, after := some .CONFIGURED, cmd := [0, 1],
+         att := some [[], [0, 1]] }] ∧
+    runO AcqCfg.legacy Cfg.code
+      { wf := { calls := 0, tasks := [⟨true, .ok, 1⟩, ⟨false, .ok, 2⟩], rounds := [[1]], notListening := some 0 },
         configure := [.ok, .ok], steps := [] } =
       [{ ev := none, rpc := .err, state := none, after := none, cmd := [], att := some [[]], verdictLost := true }] ∧
-    judgeO { wf := { calls := 0, tasks := [⟨true, .ok, 1⟩, ⟨false, .ok, 2⟩], rounds := [[1]], verdictLost := some 0 },
+    judgeOAll { wf := { calls := 0, tasks := [⟨true, .ok, 1⟩, ⟨false, .ok, 2⟩], rounds := [[1]], notListening := some 0 },
+                configure := [.ok, .ok], steps := [] }
+      [{ ev := none, rpc := .err, state := none, after := none, cmd := [], att := some [[]], verdictLost := true }] =
+      some "deploy_verdict_lost" ∧
+    -- the same observation judged for the code as it is: a violation outside every open corner
+    judgeO { wf := { calls := 0, tasks := [⟨true, .ok, 1⟩, ⟨false, .ok, 2⟩], rounds := [[1]] },
              configure := [.ok, .ok], steps := [] }
       [{ ev := none, rpc := .err, state := none, after := none, cmd := [], att := some [[]], verdictLost := true }] =
-      some "deploy_verdict_lost" := by
+      some "-" := by
   decide
